@@ -771,7 +771,7 @@ def chain_tree(orc, ops, operands):
 CHAIN_LENGTHS = [(9, 9), (10, 12), (13, 17), (18, 33), (34, 64)]
 
 
-def long_chains(rng, eng, orc, per_op=3, lengths=CHAIN_LENGTHS):
+def long_chains(rng, eng, orc, per_op=3, lengths=CHAIN_LENGTHS, only=None):
     """LONG flat chains (>= 9 operands) of every binary operator of the table in force: one operator repeated, operators
     of one group mixed; bare, under a prefix operator, in parentheses / argument lists / index expressions, with tighter
     or looser operators at the ends, with parenthesised sub-chains as operands.  Yields (text, dictated tree or None):
@@ -786,6 +786,8 @@ def long_chains(rng, eng, orc, per_op=3, lengths=CHAIN_LENGTHS):
         by_group.setdefault(abs(t[s][1]), []).append(s)
     n_leaf = len(LEAVES)
     for s in bins:
+        if only is not None and s not in only:
+            continue
         mates = by_group[abs(t[s][1])]
         picks = rng.sample(lengths, min(per_op, len(lengths)))
         if (9, 9) not in picks and rng.random() < 0.5:
@@ -871,8 +873,8 @@ def add_symbol_roles(b, family):
             b.add_tree(t, family)
 
 
-def add_long_chains(b, rng, family, per_op=3, lengths=CHAIN_LENGTHS):
-    for text, tree in long_chains(rng, b.eng, b.oracle, per_op, lengths):
+def add_long_chains(b, rng, family, per_op=3, lengths=CHAIN_LENGTHS, only=None):
+    for text, tree in long_chains(rng, b.eng, b.oracle, per_op, lengths, only):
         if tree is not None:
             b.add_tree(tree, family)
         else:
@@ -1510,7 +1512,11 @@ def run(env, res):
             for other in syms:
                 for text in pair_texts(e, ns, other):
                     b.add(text, 'custom_pairs')
-        add_long_chains(b, rng, 'custom_long_chains', per_op=2)
+        # long chains of every inserted operator, of the operators of the groups it went into, and of a sample of the others
+        mates = [s_ for s_ in syms if e.table[s_][1] and any(
+            ns in e.table and abs(e.table[ns][1] or e.table[ns][0]) == abs(e.table[s_][1]) for ns in new_syms)]
+        add_long_chains(b, rng, 'custom_long_chains', per_op=2,
+                        only=set(new_syms) | set(mates) | set(rng.sample(syms, min(6, len(syms)))))
         add_symbol_roles(b, 'custom_symbol_roles')
         finish_batch(b)
         if len([f for f in res.failures if f.key != KNOWN_SUFFIX_KEY]) >= 8:
